@@ -57,6 +57,7 @@ PROFILE = gen.profile(
   act_dyn=("none", "filter", "integrator", "filterexact"),
   act_trn=("joint", "joint", "jointinparent", "tendon", "site", "slidercrank"),
   jacobians=("dense", "sparse"),
+  p_poly=0.6,  # polynomial joint / tendon damping: dF/dv = b + 2 p0 |v| + 3 p1 v^2 (extras stream)
   timestep=(0.002, 0.005, 0.00390625),
   act_ball=False,  # servos on ball joints are C03's subject (MuJoCo 3.13 wraps their position error: forces differ)
 )
